@@ -243,6 +243,10 @@ pub fn run(run: &mut Run) {
         }
     }
     let filler = one_file("print: fn *X -> void : external\nQ :: blob { a: int, b: int, c: int }\nstart :: fn do\n    print(Q { a: 1, b: 2, c: 3 }.a)\nend\n");
+    let bad_filler = one_file("// a longer file\n// with other text on the lines\nprint: fn *X -> void : external\nwrong_a :: 1 + \"a\"\nwrong_b :: nope\nstart :: fn do\n    print(1 +\nend\n");
+    let mut bad_filler2 = Files::new();
+    bad_filler2.insert(MAIN.to_string(), "use other\nprint: fn *X -> void : external\nq :: not 1\nstart :: fn do\n    print(other.x + \"s\")\nend\n".to_string());
+    bad_filler2.insert("/p/other.sy".to_string(), "x :: 1\ny :: x + \"t\"\nz :: missing\n".to_string());
     // in-memory inputs: seeds x history positions
     let accs = crate::pool::par_items(&inputs, 1, |_| Stats::new(), |acc, _, (id, files, _valid)| {
         let mut prints: Vec<(String, String)> = Vec::new();
@@ -259,6 +263,17 @@ pub fn run(run: &mut Run) {
                 });
                 acc.evaluations += 1;
                 prints.push((format!("seed={} after={}compiles", s, k), outcome_fingerprint(&o)));
+            }
+            if s < 2 {
+                // after failing compilations of other sources whose errors were rendered (state kept by the
+                // diagnostics machinery would show up in the rendered text)
+                let o = crate::pool::on_fresh_thread(0xC16_0000 + s, || {
+                    let _ = compile_with(&bad_filler, MAIN, &CompileOpts { no_std: true, require: None, render: true });
+                    let _ = compile_with(&bad_filler2, MAIN, &CompileOpts { no_std: true, require: None, render: true });
+                    compile_with(files, MAIN, &CompileOpts { no_std: true, require: None, render: true })
+                });
+                acc.evaluations += 1;
+                prints.push((format!("seed={} after two failing compilations with rendered errors", s), outcome_fingerprint(&o)));
             }
         }
         acc.nontrivial(fnv(id.as_bytes()));
@@ -371,7 +386,7 @@ pub fn run(run: &mut Run) {
     st.states = st.evaluations;
     run.stats = st;
     run.exhaustive = false;
-    run.rule = "inputs: programs with several independent errors in one blob/enum/file/project, valid single- and multi-file programs, the repository's test programs; executions per input: every seed of the seed set (fresh thread each) x history positions {first, after 1, after 7 compiles}, plus repeated runs of the built binary under two environments; non-trivial = every input (each is executed at least 16 times); distinct by input".into();
+    run.rule = "inputs: programs with several independent errors in one blob/enum/file/project, valid single- and multi-file programs, the repository's test programs; executions per input: every seed of the seed set (fresh thread each) x history positions {first, after 1, after 7 compiles, after two failing compilations of other sources with rendered errors}, plus repeated runs of the built binary under two environments; non-trivial = every input (each is executed at least 16 times); distinct by input".into();
     run.bounds = json!({"seeds": seeds, "history_positions": [0, 1, 7], "process_repetitions": reps, "corpus_programs": corpus.len(), "corpus_seeds": cseeds});
     run.assumptions = vec![
         "the seed dimension is bounded, controlled repetition through the getrandom seam (2^128 keys exist); exhaustive only over the listed inputs".into(),
